@@ -14,6 +14,10 @@ RULE = ('integers with 1..15 digits and decimals with <=15 significant digits (b
         'non-trivial = the model returned an entity; distinct = distinct (culture, model, query).')
 EXHAUSTIVE = False
 JOB_TIMEOUT = 1800
+# carriers that contain a phrase of the culture's live ambiguity filter (en 'that one', zh 大陆 / 队伍 / 十足): the filter must drop
+# the ambiguous word only, never the literal elsewhere in the sentence
+CONTEXT_CARRIERS = {'en-us': ['that one costs {} dollars', 'which one is {} off', 'the one with {} points'],
+                    'zh-cn': ['大陆有{}人', '队伍里有{}个', '十足的{}']}
 CARRIER = {'en-us': 'abc {} xyz', 'es-es': 'tengo {} cosas', 'es-mx': 'tengo {} cosas', 'fr-fr': 'il y a {} choses', 'pt-br': 'tenho {} coisas',
            'de-de': 'ich habe {} Dinge', 'it-it': 'ho {} cose', 'nl-nl': 'ik heb {} dingen'}
 
@@ -141,6 +145,8 @@ def run(job, ctx):
         forms.append(('negative spaced', '- ' + str(ip), Decimal(-ip)))
         for form, s, val in forms:
             cars = ['{}'] + ([CARRIER[cu]] if cu in CARRIER else [])
+            if cu in CONTEXT_CARRIERS and not form.startswith('negative') and i % 4 == 0:
+                cars = cars + CONTEXT_CARRIERS[cu]
             for car in cars:
                 q = car.format(s)
                 st = q.index(s)
